@@ -29,8 +29,8 @@ def C06():
     from contracts.replay_docs import replayer as D
     return Property(
         "C06",
-        units=[ContractUnit(ShouldShow()), ContractUnit(ShouldShowElement()), ContractUnit(PageBreak()), ContractUnit(PageSettings()), _render_unit()]
-        + _text_units() + _note_units() + _strategy_units(),
+        units=[ContractUnit(ShouldShow()), ContractUnit(ShouldShowElement()), ContractUnit(PageBreak()), ContractUnit(PageSettings()), _render_unit(),
+               _figure_doc_unit()] + _text_units() + _note_units() + _strategy_units(),
         level="proof",
         technique="postconditions on the placement predicates and on the page-break / page-settings emitters (token view of the built string); "
                   "PageRenderer.render: each component's marker chunk is present exactly when its placement condition holds for this page, at most once, "
@@ -40,8 +40,8 @@ def C06():
                       "RTF reader interprets \\paperw/\\paperh/\\marg* as the specification says (L4)"],
         assumptions=["RenderPage abstracts each callee's chunk sequence by one marker chunk (render only appends / extends); the 2-level page_by variant "
                      "of RenderPage runs in the thorough tier only (quick: no page_by headings and 1 level)",
-                     "RTFFigureService.encode_figure ('' without figures) and the figure-only / multi-section page loops (_encode_figure_only, "
-                     "_encode_multi_section) are not yet under contract in this check"],
+                     "RTFFigureService.encode_figure ('' without figures) is assumed; the multi-section page loop (_encode_multi_section) is not yet under "
+                     "contract in this check; figure documents: unit FigureOnly"],
         replayers={"services/document_service.py::RTFDocumentService.generate_page_break": R.replay_page_geometry,
                    "rtf/syntax.py::RTFSyntaxGenerator.generate_page_settings": R.replay_page_geometry,
                    "encoding/renderer.py::PageRenderer._should_show": R.replay_should_show,
@@ -133,13 +133,16 @@ def C16():
     from contracts import replayers as R
     return Property(
         "C16",
-        units=[ContractUnit(u) for u in UNITS] + TABLES,
+        units=[ContractUnit(u) for u in UNITS] + [_figure_doc_unit()] + TABLES,
         level="proof",
         technique="loop invariant on the 80-character windows of data.hex(); byte-layout postconditions for PNG/JPEG headers; token view of the "
-                  "picture group; exhaustive suffix table",
+                  "picture group; exhaustive suffix table; per-page obligations on the real _encode_figure_only: page i embeds figure i with its own "
+                  "format and the i-th width / height, one figure per page, a page break exactly between consecutive figures, title / footnote / "
+                  "source on exactly the selected pages",
         trusted_base=[SOLVERS, ENGINE, "bytes.hex / str slicing / struct.unpack big-endian (assumed, DESIGN 1.7)",
                       "concatenating consecutive windows covering [0, L) yields the string (fact about strings)"],
-        assumptions=["one figure per page / caption placement in _encode_figure_only and rtf_read_figure order are not yet under contract in this check"],
+        assumptions=["rtf_read_figure (one (bytes, format) per path, in order) is an assumed contract of FigureOnly; the appended parts of "
+                     "_encode_figure_only are observed through a handler on parts.append (the function only appends)"],
         replayers={"services/figure_service.py::RTFFigureService": R.replay_figures},
         design_ref="4/C16, A19",
     )
@@ -252,7 +255,7 @@ def C01():
     units = [ContractUnit(u) for u in EM] + [ContractUnit(EncodeRows()), ContractUnit(EncodeCtx()), ContractUnit(ColWidths()),
              ContractUnit(ConvertSpecialChars()), ContractUnit(PageBreak()), ContractUnit(PageSettings()), ContractUnit(EncodeSingleFigure()),
              ContractUnit(GenerateColorTable()), ContractUnit(EncodeColumnHeader()), ContractUnit(RenderColumnHeaders()),
-             ContractUnit(SublineHeader()), ContractUnit(EncodeSpanningRow())] + _text_units() + _note_units() + LEMMAS
+             ContractUnit(SublineHeader()), ContractUnit(EncodeSpanningRow()), _figure_doc_unit(), _multi_section_unit()] + _text_units() + _note_units() + LEMMAS
     return Property(
         "C01", units=units, level="proof",
         technique="measure contracts (brace balance / minimal prefix balance / ASCII / integral parameters) on the real emitters' f-strings, row-shape "
@@ -260,8 +263,8 @@ def C01():
         trusted_base=[SOLVERS, ENGINE, "homomorphism laws of bal/low/ascii over concatenation (DESIGN 1.5)", "RTF reader reads the literal chunk shapes as the RTF specification says (L4)",
                       "pydantic model construction = record construction after declared-type coercion"],
         assumptions=["user text is balanced w.r.t. unescaped braces (the property's own hypothesis)",
-                     "multi-section / figure skeletons and the chunk join of PageRenderer.render are not yet under contract in "
-                     "this check; totality of the pydantic/polars glue is assumed (L2)"],
+                     "the chunk join of PageRenderer.render is not under contract in this check; the multi-section skeleton with a flat header list runs "
+                     "in the thorough tier only; totality of the pydantic/polars glue is assumed (L2)"],
         replayers={"row.py::TextContent._convert_special_chars": R.replay_convert_special_chars, "row.py::Utils._col_widths": R.replay_col_widths,
                    "services/document_service.py::": R.replay_page_geometry, "rtf/syntax.py::": R.replay_page_geometry,
                    "services/figure_service.py::": R.replay_figures, "services/color_service.py::": R.replay_color_index,
@@ -295,6 +298,16 @@ def _prepare_unit():
     return ContractUnit(PrepareFrame())
 
 
+def _figure_doc_unit():
+    from contracts.figure_doc import FigureOnly
+    return ContractUnit(FigureOnly())
+
+
+def _multi_section_unit():
+    from contracts.multi_section import MultiSection
+    return ContractUnit(MultiSection(), variants=["nested_headers"], thorough_variants=["flat_headers"])
+
+
 def _budget_units():
     from contracts.budget import UNITS, LEMMAS
     return [ContractUnit(u) for u in UNITS] + LEMMAS
@@ -315,14 +328,14 @@ def C02():
     from contracts.postprocess import ApplyDataPostProcessing
     return Property(
         "C02", units=[ContractUnit(EncodeRows()), ContractUnit(RenderBody()), ContractUnit(RowAsRtf()), ContractUnit(TextAsRtf()), ContractUnit(AssignPages()),
-                      ContractUnit(ApplyDataPostProcessing()), _section_unit(), _prepare_unit()]
+                      ContractUnit(ApplyDataPostProcessing()), _section_unit(), _prepare_unit(), _multi_section_unit()]
         + _strategy_units(),
         level="proof",
         technique="row-view contracts: _assign_pages pages are consecutive intervals covering all rows; _render_body emits every page row exactly once in order; "
                   "_encode emits one Row per frame row whose cell j shows the display text of cell (i, j) in column order; Row._as_rtf keeps cell order; one delimiter space before the text",
         trusted_base=[SOLVERS, ENGINE, POLARS, "polars slice / df[a:b] row-interval semantics (assumed)"],
         assumptions=["PrepareFrame abstracts type(attrs).model_fields by representative fields and assumes the filter / select / unique-column-name contracts "
-                     "(KEPT enumeration); multi-section order is not yet under contract; calculate_row_metadata is used through AssignPages' ensures"],
+                     "(KEPT enumeration); multi-section order: unit MultiSection; calculate_row_metadata is used through AssignPages' ensures"],
         replayers={"pagination/core.py::PageBreakCalculator._assign_pages": replay_assign_pages,
                    "encoding/renderer.py::PageRenderer._render_body": D("cells"), "attributes.py::TableAttributes._encode": D("cells"),
                    "encoding/unified_encoder.py::": D("cells")},
@@ -353,14 +366,14 @@ def C07():
     from contracts.placement import ShouldShowElement
     return Property(
         "C07", units=[ContractUnit(PaginationBorders()), ContractUnit(UpdateCell()), ContractUnit(UpdateRow()), ContractUnit(ToList()), ContractUnit(Iloc()),
-                      ContractUnit(CellAsRtf()), ContractUnit(BorderAsRtf()), ContractUnit(ShouldShowElement()), _render_unit(quick=("no_groups",), thorough=())]
+                      ContractUnit(CellAsRtf()), ContractUnit(BorderAsRtf()), ContractUnit(ShouldShowElement()), _render_unit(quick=("no_groups",), thorough=()), _multi_section_unit()]
         + _note_units() + LEMMAS,
         level="proof",
         technique="whole-matrix postcondition of the real _apply_pagination_borders per page kind (column-loop invariants 'columns < c done, everything else "
                   "as before'), whole-view contracts of BroadcastValue.update_cell/to_list, emitter contracts for the cell border words",
         trusted_base=[SOLVERS, ENGINE, POLARS, "copy.deepcopy returns a fresh equal object graph"],
-        assumptions=["page border_first on the first column-header row (_render_column_headers) and the multi-section first/last clauses are not yet "
-                     "under contract in this check; the component override computed by the processor (_apply_footnote_source_borders) reaches the "
+        assumptions=["page border_first on the first column-header row (_render_column_headers) is not yet under contract in this check; multi-section "
+                     "documents: first / last page border only on the first / last section (unit MultiSection); the component override computed by the processor (_apply_footnote_source_borders) reaches the "
                      "footnote/source emitters through render (unit RenderPage) and is applied on a copy (units EncodeFootnote/EncodeSource)"],
         replayers={}, design_ref="4/C07")
 
